@@ -56,6 +56,10 @@ func sigClass(sig string) string {
 		return shapeClass(sig)
 	case "F4acc":
 		return strings.Join(p[:3], "/") // form without index type / value
+	case "F4idx", "F15idx":
+		if len(p) >= 4 {
+			return strings.Join(p[:4], "/") // family/op/space/object, without index type / value
+		}
 	}
 	return sig
 }
@@ -141,6 +145,10 @@ func familyByName(name string) *wgen.Family {
 		return wgen.F15Access()
 	case "F15zero":
 		return wgen.F15Zero()
+	case "F4idx":
+		return wgen.F4Idx()
+	case "F15idx":
+		return wgen.F15Idx()
 	}
 	if name == "F3" || name == "F3t" {
 		return wgen.F3(name == "F3t")
